@@ -300,3 +300,47 @@ def check(ctx):
     vi = gt.func('validate_interface_blob')
     r6.check('entry->blob_type!=BLOB_TYPE_INTERFACE&&entry->blob_type!=BLOB_TYPE_OBJECT' in ns(gt.text_of(vi)), 'validator accepts class prerequisites', 'girepository/gitypelib.c', gt.line(vi),
              'validate_interface_blob rejects an interface whose prerequisite is a class: the compiler builds the typelib and then aborts in its own validation')
+    from . import c05
+    c05.type_verdict_rule(ctx, r6)
+    # the type-blob sharing key of the compiler distinguishes every stored array flag
+    type_key_rule(ctx, r6)
+
+
+def type_key_rule(ctx, rule):
+    """serialize_type() (girnode.c) builds the key under which identical type blobs are shared: for C arrays every flag stored in the
+    ArrayTypeBlob (zero_terminated, has_length, has_size) must change the key whatever the other flags are (length and fixed size are
+    alternatives of one union member and are not combined)"""
+    from .. import cgsa, gsa
+    GN = 'girepository/girnode.c'
+    S = cgsa.summarise(ctx, GN, 'serialize_type')
+    FLAGS = ['node->zero_terminated', 'node->has_length', 'node->has_size']
+    ats = S.atoms()
+    if not all(f in ats for f in FLAGS):
+        raise AnalysisError('serialize_type: array flags %s not all consulted (atoms %s)' % (FLAGS, [a for a in ats if a.startswith('node->')]))
+    base = {}
+    for a in ats:
+        m_ = re.match(r'^node->tag == (GI_TYPE_TAG_\w+)$', a)
+        if m_:
+            base[a] = m_.group(1) == 'GI_TYPE_TAG_ARRAY'
+        elif re.match(r'^node->tag < GI_TYPE_TAG_ARRAY$', a):
+            base[a] = False
+        elif re.match(r'^node->array_type == (GI_ARRAY_TYPE_\w+)$', a):
+            base[a] = a.endswith('GI_ARRAY_TYPE_C')
+    emits = [e for e in gsa.find(S, 'call', r'^g_string_append') if e.fn == 'serialize_type']
+
+    def key(val):
+        v = dict(base)
+        v.update(val)
+        return frozenset((e.line, e.value) for e in emits if gsa.can_hold(e.cond, v))
+    import itertools
+    for f in FLAGS:
+        others = [x for x in FLAGS if x != f]
+        for combo in itertools.product((False, True), repeat=2):
+            val = dict(zip(others, combo))
+            full_t, full_f = dict(val), dict(val)
+            full_t[f], full_f[f] = True, False
+            if any(v_.get('node->has_length') and v_.get('node->has_size') for v_ in (full_t, full_f)):
+                continue
+            rule.check(key(full_t) != key(full_f), 'type key depends on %s when %s' % (f[6:], ', '.join('%s=%d' % (k[6:], v) for k, v in sorted(val.items()))), GN, S.func_line if hasattr(S, 'func_line') else 1,
+                       'serialize_type() gives C arrays that differ only in %s (with %s) the same key: the compiler shares one ArrayTypeBlob between them and the typelib states the '
+                       'wrong %s for one of the two' % (f[6:], ', '.join('%s=%d' % (k[6:], v) for k, v in sorted(val.items())), f[6:]), detail=sorted(x[1] for x in key(full_t) ^ key(full_f)))
